@@ -16,6 +16,7 @@ C19 -- Verilog generation is a pure, repeatable function of the circuit.
 import io
 import itertools
 import zlib
+import re
 import sys
 
 import z3
@@ -114,6 +115,30 @@ def d_const(k):
     return build
 
 
+class PadRing(py4hw.Logic):
+    """one tri-state pad: 'pad' is a bidirectional (inout) port, as in the library's platform wrappers"""
+    def __init__(self, parent, name, pin, pout, poe, pad):
+        super().__init__(parent, name)
+        self.addIn('pout', pout)
+        self.addIn('poe', poe)
+        self.addOut('pin', pin)
+        self.addInOut('pad', pad)
+        py4hw.BidirBuf(self, 'buf', pin, pout, poe, pad)
+
+
+def build_pad(s):
+    """(box, ins, outs, extra) for a design with inout ports two levels deep"""
+    a, e, o = W(s, 'a', 1), W(s, 'e', 1), W(s, 'o', 1)
+    pad = s.bidir_wire('pad')
+    box = D.Box(s, 'box', {'a': a, 'e': e}, {'o': o}, lambda b: None)
+    box.addInOut('pad', pad)
+    t, pin = box.wire('t', 1), box.wire('pin', 1)
+    Reg(box, 'r', a, t)
+    PadRing(box, 'ring', pin, t, e, pad)
+    Reg(box, 'ro', pin, o)
+    return box, {'a': a, 'e': e}, {'o': o}, {}
+
+
 DESIGNS = {'structural': d_struct, 'hierarchy': d_hier, 'behavioural leaves': d_behav, 'constructor constants k=3': d_const(3),
            'constructor constants k=5': d_const(5)}
 
@@ -181,6 +206,7 @@ def graph_snapshot(obj):
         return {
             'name': o.name, 'class': type(o).__name__,
             'in': [(p.name, id(p.wire)) for p in o.inPorts], 'out': [(p.name, id(p.wire)) for p in o.outPorts],
+            'inout': [(p.name, id(p.wire)) for p in getattr(o, 'inOutPorts', [])],
             'wires': [(k, w.name, w.getWidth(), id(w.source) if getattr(w, 'source', None) is not None else None, len(w.sinks)) for k, w in o._wires.items()],
             'params': dict(getattr(o, 'parameters', {})) if hasattr(o, 'parameters') else None,
             'children': [rec(c) for c in o.children.values()],
@@ -271,6 +297,16 @@ def param_signature(text):
     return {k: sorted(v) for k, v in sig.items()}
 
 
+def canonical_text(t):
+    """the property's own relation: identical text up to the order of declarations and the instance-unique module suffixes"""
+    t = re.sub(r'_[0-9a-f]{8,}\b', '_ID', t)
+    mods = []
+    for m in re.finditer(r'\bmodule\b(.*?)\bendmodule\b', t, re.S):
+        head, _, body = m.group(1).partition(');')
+        mods.append((' '.join(head.split()), sorted(' '.join(l.split()) for l in body.splitlines() if l.strip())))
+    return sorted(mods)
+
+
 def equivalent_texts(p, label, t1, t2, top=None):
     try:
         s1, s2 = param_signature(t1), param_signature(t2)
@@ -281,6 +317,12 @@ def equivalent_texts(p, label, t1, t2, top=None):
     try:
         d1 = elab.load(t1, top=top)
     except (VlogSyntaxError, VlogUnsupported) as e:
+        if 'inout' in str(e):
+            # bidirectional ports need a Z value the front end does not model: fall back to the relation the statement itself names
+            c1, c2 = canonical_text(t1), canonical_text(t2)
+            p.structural('%s: identical text up to the order of declarations and the instance-unique module suffixes (inout ports: no solver equivalence)' % label,
+                         c1 == c2, detail={'only first': [m for m in c1 if m not in c2][:2], 'only other': [m for m in c2 if m not in c1][:2]})
+            return
         p.inconclusive(label, 'front end (first text): %s' % e)
         return
     try:
@@ -348,7 +390,7 @@ def seq_task(p, cfg, rec):
     try:
         texts.append((-1, 'reference: fresh generator before the sequence', gen('H', box, {})))
     except Exception as e:
-        if cfg.get('build'):
+        if cfg.get('build') and not cfg.get('must_generate'):
             # a block the generator cannot express: a refusal is not a purity matter (but it must leave the circuit alone)
             p.res['refused'] += 1
             p.structural('a refused generation leaves the object graph and block attributes unchanged', graph_snapshot(s) == g0)
@@ -376,7 +418,13 @@ def seq_task(p, cfg, rec):
         if t is not None:
             texts.append((k, kind, t))
         p.res['programs'] += 1
-    after, v2 = step_terms(s, ins)
+    try:
+        after, v2 = step_terms(s, ins)
+    except Exception as e:
+        # the same step was taken before the requests: the circuit could be simulated then
+        p.structural('the circuit can still be simulated after the generation requests', False, detail={'exception': repr(e)})
+        return
+    p.structural('the circuit can still be simulated after the generation requests', True)
     conds = []
     keys = []
     for k in before:
@@ -466,6 +514,8 @@ def tasks_for(tier):
             continue                      # every block class at least once, plus a sample of its other configurations
         seen_cls.add(cls)
         t.append(('corpus %s: requests H H' % name, seq_task, {'design': name, 'seq': ['H', 'H'], 'build': cfg['build']}))
+    for sq in (['H', 'H'], ['h', 'h'], ['c', 'h'], ['p', 'H'], ['M', 'H'], ['L', 'h']):
+        t.append(('bidirectional pad (inout ports): requests %s' % ' '.join(sq), seq_task, {'design': 'bidirectional pad', 'seq': sq, 'build': build_pad, 'must_generate': True}))
     t.append(('sub-block modules requested from different ancestors', ancestor_task, {}))
     k3, k5 = 'constructor constants k=3', 'constructor constants k=5'
     inter = [[(k3, 'H'), (k5, 'H')], [(k5, 'H'), (k3, 'H'), (k5, 'h'), (k3, 'h')], [('behavioural leaves', 'H'), (k5, 'H'), ('structural', 'H'), (k3, 'H')]]
